@@ -72,6 +72,79 @@ func RunCodec(t *testing.T, p *plan.Plan, keepLog int) *Result {
 					}
 				}
 			}
+			// C09 at the codec: a size limit equal to the uncompressed length
+			// omits nothing and adds no TC; one octet less truncates properly
+			checkLimit := func(l live) {
+				u := l.m.Len()
+				if u < 512 || u > 65535 {
+					return
+				}
+				// Pack with a limit moves the OPT record to the end of the
+				// additional section; compare with the OPT taken out of both
+				noOpt := func(m *refdns.Msg) *refdns.Msg {
+					c := *m
+					c.Ar = nil
+					for _, r := range m.Ar {
+						if r.Type != refdns.TypeOPT {
+							c.Ar = append(c.Ar, r)
+						}
+					}
+					return &c
+				}
+				nOpt := len(l.orig.OPTs())
+				for _, compression := range []bool{false, true} {
+					buf := make([]byte, u+16)
+					n, err := l.m.Pack(buf, compression, u)
+					name := fmt.Sprintf("message %d (shape %s, compression %v, limit = uncompressed length %d)", l.it.Idx, l.it.Ans.Shape, compression, u)
+					if err != nil {
+						s.Fail("C09", "pack-failed", "%s: %v", name, err)
+						continue
+					}
+					got, perr := refdns.Parse(buf[:n])
+					if perr != nil {
+						s.Fail("C09", "malformed", "%s: does not decode: %v", name, perr)
+						continue
+					}
+					s.Probe("c09_codec_exact_fit_checked")
+					if n > u {
+						s.Fail("C09", "size", "%s: %d bytes", name, n)
+					}
+					if got.Has(refdns.BitTC) != l.orig.Has(refdns.BitTC) || len(got.OPTs()) != nOpt {
+						s.Fail("C09", "fits-but-truncated", "%s: TC %v (original %v), %d OPT records (original %d)", name, got.Has(refdns.BitTC), l.orig.Has(refdns.BitTC), len(got.OPTs()), nOpt)
+					} else {
+						// (taking the OPT record out swaps it with the last additional
+						// record: the order of that section is not part of the claim)
+						a, b := noOpt(l.orig), noOpt(got)
+						arA, arB := a.Ar, b.Ar
+						a.Ar, b.Ar = nil, nil
+						if d := diffMsg(a, b); d != "" {
+							s.Fail("C09", "fits-but-truncated", "%s: %s", name, d)
+						} else if !sameMultiset(arA, arB) {
+							s.Fail("C09", "fits-but-truncated", "%s: additional section %d records became %d, or different ones", name, len(arA), len(arB))
+						}
+					}
+				}
+				if u-1 >= 512 {
+					buf := make([]byte, u+16)
+					n, err := l.m.Pack(buf, false, u-1)
+					name := fmt.Sprintf("message %d (shape %s, no compression, limit %d = uncompressed length - 1)", l.it.Idx, l.it.Ans.Shape, u-1)
+					if err != nil {
+						s.Fail("C09", "pack-failed", "%s: %v", name, err)
+						return
+					}
+					got, perr := refdns.Parse(buf[:n])
+					switch {
+					case perr != nil:
+						s.Fail("C09", "malformed", "%s: does not decode: %v", name, perr)
+					case n > u-1:
+						s.Fail("C09", "size", "%s: %d bytes", name, n)
+					case len(l.orig.An)+len(l.orig.Ns)+len(stripOPT(l.orig.Ar)) > 0 && !got.Has(refdns.BitTC):
+						s.Fail("C09", "tc-missing", "%s: records were omitted (%d bytes) but TC is not set", name, n)
+					case len(got.OPTs()) != nOpt:
+						s.Fail("C09", "opt-lost", "%s: %d OPT records, original %d", name, len(got.OPTs()), nOpt)
+					}
+				}
+			}
 			for i := range p.Codec.Items {
 				it := &p.Codec.Items[i]
 				nm := refdns.NameFromLabels(it.Labels...)
@@ -107,11 +180,13 @@ func RunCodec(t *testing.T, p *plan.Plan, keepLog int) *Result {
 					l := ring[0]
 					ring = ring[1:]
 					check(l)
+					checkLimit(l)
 					dnsmsg.ReleaseMsg(l.m)
 				}
 			}
 			for _, l := range ring {
 				check(l)
+				checkLimit(l)
 				dnsmsg.ReleaseMsg(l.m)
 			}
 			finishSimple(s, res, keepLog, true)
